@@ -228,6 +228,34 @@ pub fn make<S: Store>(d: &mut S, v: &Value) -> Result<usize, String> {
             let b: Vec<u8> = v["v"].as_array().ok_or("bytes without v")?.iter().map(|c| c.as_u64().unwrap_or(0) as u8).collect();
             d.mk_bytes(&b).map_err(e)
         }
+        "deep" => {
+            // deeply nested data, built iteratively: {"t":"deep","k":"pairl|pairr|list|concatl|concatr|slice","depth":N}
+            let n = v["depth"].as_u64().unwrap_or(0);
+            let k = v["k"].as_str().unwrap_or("pairl");
+            let mut cur = d.add_number(SimpleNumber::Integer(1)).map_err(e)?;
+            let two = d.add_number(SimpleNumber::Integer(2)).map_err(e)?;
+            let zero = d.add_number(SimpleNumber::Integer(0)).map_err(e)?;
+            for _ in 0..n {
+                cur = match k {
+                    "pairl" => d.add_pair((cur, two)),
+                    "pairr" => d.add_pair((two, cur)),
+                    "concatl" => d.add_concatenation(cur, two),
+                    "concatr" => d.add_concatenation(two, cur),
+                    "slice" => {
+                        let r = d.add_range(zero, two).map_err(e)?;
+                        d.add_slice(cur, r)
+                    }
+                    _ => {
+                        let l = d.start_list(2).map_err(e)?;
+                        let l = d.add_to_list(l, cur).map_err(e)?;
+                        let l = d.add_to_list(l, two).map_err(e)?;
+                        d.end_list(l)
+                    }
+                }
+                .map_err(e)?;
+            }
+            Ok(cur)
+        }
         "pair" | "concat" | "range" | "slice" | "partial" => {
             let l = make(d, &v["l"])?;
             let r = make(d, &v["r"])?;
